@@ -181,6 +181,35 @@ def main(ck, tier, w, pid='C07'):
         if probs:
             ck.violation('; '.join(probs), {'scenario': {'transactions': nh, 'blocks': nb, 'start': start, 'seed': str(j[0])},
                                             'observed': r.brief(), 'trace_verdict': v, 'tags': []})
+    # ---- counts beyond 16 bits: a transaction with more than 65 536 outputs / inputs (indices are 32-bit on the wire) -----------
+    r0 = random.Random('%d-wide' % seed)
+    from lib import datadir
+    A = [btc.p2pkh(r0.randbytes(20)) for _ in range(3)]
+    NO = 65540
+    marks = {0: A[0], 1: A[1], 255: A[0], 256: A[2], 65535: A[1], 65536: A[2], 65537: A[0], 65539: A[1]}
+    T = {'ver': 1, 'ins': [{'txid': r0.randbytes(32), 'idx': 0, 'sig': b'', 'seq': 0}],
+         'outs': [{'val': 1000 + i, 'spk': marks.get(i, b'\x6a')} for i in range(NO)], 'lock': 0}
+    tid = btc.txid(T)
+    spend1 = {'ver': 1, 'ins': [{'txid': tid, 'idx': 0, 'sig': b'', 'seq': 0}, {'txid': tid, 'idx': 65537, 'sig': b'', 'seq': 0}],
+              'outs': [{'val': 7, 'spk': A[2]}], 'lock': 1}
+    many_in = {'ver': 1, 'ins': [{'txid': r0.randbytes(32) if i != 65536 else tid, 'idx': 256 if i == 65536 else i, 'sig': b'', 'seq': 0} for i in range(65600)],
+               'outs': [{'val': 9, 'spk': A[0]}], 'lock': 2}
+    wb, prev = [], b'\0' * 32
+    for h, txs in enumerate([[btc.coinbase(0, A[1]), T], [btc.coinbase(1, A[1]), spend1], [btc.coinbase(2, A[0]), many_in]]):
+        wb.append(datadir.mk_block(prev, txs, t=1300000000 + h, nonce=h))
+        prev = wb[-1]['hash']
+    d = utxohist.write_chain(w, wb, nfiles=2)
+    out = run_both(w, d, len(wb), timeout=300)
+    exp = ref.utxo_expected(list(enumerate(wb)), 'bitcoin')
+    for cb, want in (('unspentcsvdump', ref.unspent_rows(exp)), ('balances', ref.balances_rows(exp))):
+        r, rows, probs, _ = out[cb]
+        ck.evals()
+        ck.distinct(('wide', cb))
+        if not probs and rows != want:
+            probs = ['rows differ from the reference: unexpected %s, missing %s' % (sorted(rows - want)[:4], sorted(want - rows)[:4])]
+        if probs and (pid == 'C07') == (cb == 'unspentcsvdump'):
+            ck.violation('%s over a chain with a 65 540-output and a 65 600-input transaction: %s' % (cb, '; '.join(probs[:3])),
+                         {'scenario': 'addressed outputs at indices %s; spends of 0, 65537 and 256' % sorted(marks), 'observed': r.brief(), 'tags': []})
     if pid == 'C08' and not quick:
         # more than 2^20 unspent outputs over a handful of addresses (the real UTXO set has tens of millions)
         r0 = random.Random('%d-huge' % seed)
